@@ -47,6 +47,9 @@ var gbyCache = gbyTable{
 }
 
 func runC17(p *Prog, r *Report) {
+	if want("C17.13") {
+		ruleOptGetters(p, r, "C17.13", "cache switches", "Options.GetDisableBlockCache", "ReadOptions.GetDontFillCache", "Options.GetBlockCacheEvictRemoved")
+	}
 	if want("C17.12") {
 		ruleNodeRefOwned(p, r, "C17.12")
 	}
